@@ -308,7 +308,7 @@ def run_result(rng, rec, log, scratch, idx):
                       ("tsv-parameters", SavingOptions(parameter_format="tsv"))][int(rng.integers(4))]
     if rng.integers(3) == 0:
         jc = numeric_parameter_labels(jc)
-    target_kind = str(rng.choice(["absolute", "relative"]))
+    target_kind = str(rng.choice(["absolute", "relative", "relative-dotdot", "relative-dot", "relative-via-sibling"]))
     ctx = dict(jc, saving_options=opt_name, target=target_kind)
     try:
         with time_limit(60):
@@ -324,7 +324,11 @@ def run_result(rng, rec, log, scratch, idx):
     old = os.getcwd()
     try:
         os.chdir(base / "work")
-        target = (base / "work" / "out" / "result.yml") if target_kind == "absolute" else Path("out") / "result.yml"
+        (base / "work" / "sub").mkdir()
+        # the same folder named in different ways; what is stored inside it must not depend on how it was named
+        target = {"absolute": base / "work" / "out" / "result.yml", "relative": Path("out") / "result.yml",
+                  "relative-dotdot": Path("..") / "work" / "out" / "result.yml", "relative-dot": Path(".") / "out" / "result.yml",
+                  "relative-via-sibling": Path("sub") / ".." / "out" / "result.yml"}[target_kind]
         try:
             with warnings.catch_warnings():
                 warnings.simplefilter("ignore")
@@ -343,6 +347,10 @@ def run_result(rng, rec, log, scratch, idx):
             absolute = [m for m in re.findall(r":\s*['\"]?(/[^\s'\"]+)", text)]
             if absolute or str(base) in text:
                 rec.violation(f"result:absolute-path-stored:{fname}:{target_kind}", ctx, f"{fname} contains absolute paths: {(absolute or [str(base)])[:2]}")
+                return None
+            escaping = [m for m in re.findall(r":\s*['\"]?((?:\.\./)[^\s'\"]+)", text)]
+            if escaping:
+                rec.violation(f"result:reference-leaves-folder:{fname}:{target_kind}", ctx, f"{fname} refers to files outside the result folder: {escaping[:2]}")
                 return None
         moved = base / "elsewhere" / "moved"
         shutil.move(str(out), str(moved))
